@@ -394,6 +394,28 @@ func c13Boundaries() []c13Bound {
 			}
 		}
 	}
+	// --- removing / overwriting an element whose removal frees a cycle through the container itself
+	for _, how := range []int{0, 1, 2, 3, 4, 5} {
+		a := &c13Asm{}
+		switch how {
+		case 0, 1: // m = {0: [m]}
+			a.op(opcode.NEWMAP).op(opcode.DUP).i(0).op(opcode.NEWARRAY0).op(opcode.DUP).i(3).op(opcode.PICK).op(opcode.APPEND).op(opcode.SETITEM)
+		default: // c = [[c]]  (array or struct holding an array that holds it)
+			a.op(opcode.NEWARRAY0).op(opcode.DUP).op(opcode.NEWARRAY0).op(opcode.DUP).i(3).op(opcode.PICK).op(opcode.APPEND).op(opcode.APPEND)
+		}
+		switch how {
+		case 0, 2:
+			a.i(0).op(opcode.REMOVE)
+		case 1, 3:
+			a.i(0).i(5).op(opcode.SETITEM)
+		case 4:
+			a.op(opcode.CLEARITEMS)
+		default:
+			a.op(opcode.POPITEM)
+		}
+		a.op(opcode.PUSH1).op(opcode.PUSH2)
+		add("cycle-cascade", a, 1, 60)
+	}
 	// --- gas: exactly at the limit, one unit beyond
 	for _, d := range []int64{-1, 0, 1} {
 		// PUSH1 PUSH1 ADD = 1 + 1 + 8 = 10 units; base = 10000 pico so that 1 datoshi = 1 unit
